@@ -1,4 +1,5 @@
 import LentilVerif.Model.Field
+import LentilVerif.Model.Fourier
 import LentilVerif.Gen.Helper
 /-! Executable model of `lentil.plane.Plane.multiply` (per-segment phasors, fields × segments loop) and of the
 `Wavefront` views `field`, `intensity`, `insert` (`lentil/wavefront.py`). Generic in the value type `K` of the field and
@@ -80,6 +81,11 @@ def PlaneM.shape (p : PlaneM K R) : Option (Int × Int) :=
   match p.mask with
   | .scalar _ => none
   | .segs s0 s1 _ => some (s0, s1)
+
+/-- the phase factor of `Plane.multiply`: `np.exp(2*np.pi*1j*opd/wavefront.wavelength)` — `CxLike.expI t` is `exp(i t)`;
+instantiated at `Float` by the driver and at `ℝ`/`ℂ` (`Complex.exp`) in Props/C07 -/
+def planePh [Mul R] [Div R] [RealLike R] [CxLike K R] (wavelength opd : R) : K :=
+  CxLike.expI (RealLike.twoPi * opd / wavelength)
 
 /-- `amp * mask` for a 0/1 mask entry -/
 def maskMul [Zero K] (b : Bool) (x : K) : K := if b then x else 0
